@@ -136,8 +136,11 @@ echo "exec $t $r" >> "$o/cmd.log"
 for a in "$@"; do printf '%s\\000' "$a"; done > "$o/argv.$t"
 env -0 > "$o/env.$t"
 pwd -P > "$o/cwd.$t"
-echo "OUT:$t"
-echo "ERR:$t" 1>&2
+case "$C10_WR" in
+  out) echo "OUT:$t" ;;
+  err) echo "ERR:$t" 1>&2 ;;
+  *)   echo "OUT:$t"; echo "ERR:$t" 1>&2 ;;
+esac
 case "$t" in
   -1) rc=0 ;;
   *)  eval "rc=\\${C10_RC_$t:-0}" ;;
@@ -158,8 +161,12 @@ with open(o + '/env.' + t, 'wb') as fh:
     fh.write(b''.join(k + b'=' + v + b'\\0' for k, v in os.environb.items()))
 with open(o + '/cwd.' + t, 'w') as fh:
     fh.write(os.path.realpath(os.getcwd()) + '\\n')
-sys.stdout.write('OUT:%s\\n' % t)
-sys.stderr.write('ERR:%s\\n' % t)
+wr = os.environ.get('C10_WR', 'both')
+if wr != 'err':
+    sys.stdout.write('OUT:%s\\n' % t)
+    sys.stdout.flush()
+if wr != 'out':
+    sys.stderr.write('ERR:%s\\n' % t)
 sys.exit(int(os.environ.get('C10_RC_' + t, '0')))
 '''
 
@@ -421,7 +428,10 @@ class World(object):
              'name'         : case.get('name', '')}
         names = {'out_rel': 'my_stdout.txt', 'out_abs': '%s/%s.o' % (self.absd, uid),
                  'err_rel': 'logs.err.txt',  'err_abs': '%s/%s.e' % (self.absd, uid)}
-        for key, kind, pfx in (('stdout', cfg['out'], 'out'), ('stderr', cfg['err'], 'err')):
+        if cfg['err'] == 'same':                      # td.stderr names the file of td.stdout
+            names['err_rel'], names['err_abs'] = names['out_rel'], names['out_abs']
+        for key, kind, pfx in (('stdout', cfg['out'], 'out'),
+                               ('stderr', cfg['out'] if cfg['err'] == 'same' else cfg['err'], 'err')):
             if kind == 'rel':
                 d[key] = names[pfx + '_rel']
             elif kind == 'abs':
@@ -480,6 +490,9 @@ class World(object):
         for k in ('sto', 'svc', 'cfgpre', 'prof'):
             cfg.setdefault(k, False)
         cfg.setdefault('fl', 'none' if cfg['lm'] == 'fork' else 'ompi')
+        cfg.setdefault('sv', 'none')
+        cfg.setdefault('sval', 0)
+        cfg.setdefault('wr', 'both')
         uid  = case['uid']
         n    = cfg['ranks']
         task, want = self.task_for(case)
@@ -504,6 +517,9 @@ class World(object):
         env = {'PATH': self.path, 'HOME': self.root + '/home',
                'C10_OUT': obs, 'LANG': 'C.UTF-8'}
         env.update(AGENT_ENV)
+        env['C10_WR'] = cfg['wr']
+        if cfg['sv'] != 'none':                       # rank variable of another launcher layer
+            env[cfg['sv']] = str(cfg['sval'])
         for r in range(n):
             env['C10_RC_%d' % r] = str(case['xrc'][r])
         for f in case['F']:
@@ -655,6 +671,7 @@ class World(object):
         # every file that holds what a rank wrote to stdout / stderr: the whole task
         # sandbox (recursively) and the directory of the absolute names
         found = {'OUT': [[] for _ in range(n)], 'ERR': [[] for _ in range(n)]}
+        fail  = []                                    # files with rp_error's "<sig> failed"
         files = ['%s/%s' % (self.absd, f) for f in sorted(os.listdir(self.absd))
                  if f.startswith(case['uid'] + '.')]
         for top, _, fs in sorted(os.walk(want['sbox'])):
@@ -665,8 +682,10 @@ class World(object):
                 for r in range(n):
                     if ('%s:%d' % (tag, r)).encode() in lines:
                         found[tag][r].append(os.path.normpath(f))
+            if b'pre_exec failed' in lines or b'post_exec failed' in lines:
+                fail.append(os.path.normpath(f))
         events.append({'ev': 'LaunchExit', 'code': lcode,
-                       'out_at': found['OUT'], 'err_at': found['ERR']})
+                       'out_at': found['OUT'], 'err_at': found['ERR'], 'fail_at': fail})
 
         return {'uid': case['uid'], 'cfg': cfg, 'F': case['F'], 'xrc': list(case['xrc']),
                 'gen_error': gen_error, 'events': events,
